@@ -704,7 +704,13 @@ def run_case(case, stats, tolerate=True, beyond=True):
     try:
         r = record_case(case, root)
         only = case.get('crash')
-        pts = [(only[0], only[1])] if only else crash_points(r)
+        pts = crash_points(r)
+        if only:
+            if (only[0], only[1]) in pts:
+                pts = [(only[0], only[1])]
+            else:
+                # the code under test no longer issues the recorded op list: enumerate the whole case
+                stats.notes['replay-crash-index-does-not-fit:enumerated-all'] += 1
         overwrite = any(r.old[a] is not None for a in r.batch)
         interesting = overwrite or r.shares
         ckey = core.case_hash({k: v for k, v in case.items() if k != 'crash'})
